@@ -305,6 +305,20 @@ def run(scn, mode="step", tap=True, events_mode="add", max_steps=None, outdir=No
         res["stage"] = "sim"
         late = scn.get("sim", {}).get("late")
         late_events = []
+        prebuilt = None
+        if scn.get("sim", {}).get("reuse") and scn.get("events") and not late:
+            # the Event objects have already served in another simulation (of another model built
+            # from the same inputs) that ran for a few steps and is still alive
+            prebuilt = [scen.build_event(e) for e in scn["events"]]
+            decoy_dir = tempfile.mkdtemp(prefix="verif_boario_decoy_")
+            try:
+                decoy = scen.build_sim(scn, scen.build_model(scn, scen.build_mriot(scn)), outdir=decoy_dir,
+                                       events_mode=events_mode, events=list(prebuilt))
+                for _ in range(3):
+                    decoy.next_step()
+                res["decoy"] = decoy
+            finally:
+                shutil.rmtree(decoy_dir, ignore_errors=True)
         if late:
             # events[first:] are registered while the simulation is running, after `k` steps
             head = dict(scn, events=scn["events"][:late["first"]])
@@ -312,7 +326,7 @@ def run(scn, mode="step", tap=True, events_mode="add", max_steps=None, outdir=No
             late_events = [scen.build_event(e) for e in scn["events"][late["first"]:]]
             res["registrations"] = []
         else:
-            sim = scen.build_sim(scn, model, outdir=outdir, events_mode=events_mode)
+            sim = scen.build_sim(scn, model, outdir=outdir, events_mode=events_mode, events=prebuilt)
         res["stage"] = "run"
         t = Tap(sim) if tap else None
         n = scn.get("sim", {}).get("n", 20)
@@ -355,6 +369,7 @@ def run(scn, mode="step", tap=True, events_mode="add", max_steps=None, outdir=No
         res["error"]["stage"] = res["stage"]
         res["error"]["tb"] = traceback.format_exc()[-1500:]
     finally:
+        res.pop("decoy", None)
         close_log_handlers()
         if keep_sim:
             res["sim"] = sim
